@@ -1,31 +1,982 @@
-use concordium_contracts_common::{schema::*, Cursor};
-use hlib::{guarded, quiet_panics};
-use serde_json::json;
+//! C10 harness: schema-directed JSON <-> binary conversion.
+//!
+//! Modes (every random choice derives from the seed; one JSON object per line):
+//!   rt <seed> <n> <depth>     conforming JSON (with the accepted spelling variations) and near-miss JSON
+//!   bytes <seed> <n> <depth>  arbitrary (Type, bytes) pairs incl. hostile lengths
+//!   schema <seed> <n> <depth> binary codec of Type / Function / Contract / Module schemas, all versions,
+//!                             with and without version prefix, base64, testdata files
+//!   contract <seed> <n>       from_json bytes are the contract-side encoding (from_bytes::<T>)
+//!   leaf <seed> <n>           text forms of the opaque leaves parse back
+//!   obs                       observations O1 / O2 (outside the claim)
+use base64::{engine::general_purpose, Engine};
+use concordium_contracts_common::{
+    from_bytes, schema::*, to_bytes, AccountAddress, Amount, ContractAddress, Cursor, Deserial, Duration,
+    OwnedContractName, OwnedReceiveName, Serial, Timestamp,
+};
+use hlib::{guarded, hex, quiet_panics, Rng};
+use serde_json::{json, Map, Value};
+use std::collections::{BTreeMap, BTreeSet};
+use std::str::FromStr;
+
+// ------------------------------------------------------------------------------------------ types
+const SIZES: [SizeLength; 4] = [SizeLength::U8, SizeLength::U16, SizeLength::U32, SizeLength::U64];
+
+fn sl_num(s: &SizeLength) -> u64 {
+    match s { SizeLength::U8 => 8, SizeLength::U16 => 16, SizeLength::U32 => 32, SizeLength::U64 => 64 }
+}
+
+struct Gen {
+    r: Rng,
+    /// allow duplicate field / variant names (dedicated small stream)
+    dup: bool,
+    /// bytes stream: collections of zero-width elements only get U8/U16 lengths and arrays <= 2^16
+    hostile: bool,
+}
+
+fn gen_name(g: &mut Gen) -> String {
+    let r = &mut g.r;
+    match r.below(12) {
+        0 => String::new(),
+        1 => "index".into(),
+        2 => "contract".into(),
+        3 => "Some".into(),
+        4 => "None".into(),
+        5 => { let c = *r.pick(&['é', 'ß', '€', '𝄞', 'a', 'Z', '_', ' ', '"', '\\']); let mut s = String::from("f"); s.push(c); s }
+        _ => { let n = r.range(1, 6); (0..n).map(|_| *r.pick(&['a', 'b', 'c', 'x', 'y', 'A', 'B', '0', '1', '_'])).collect() }
+    }
+}
+
+fn distinct_names(g: &mut Gen, n: usize) -> Vec<String> {
+    let mut out: Vec<String> = Vec::new();
+    while out.len() < n {
+        let mut s = gen_name(g);
+        if !g.dup || !g.r.chance(1, 3) {
+            while out.contains(&s) { s.push(*g.r.pick(&['a', 'b', 'q', '1'])); }
+        }
+        out.push(s);
+    }
+    out
+}
+
+/// Minimal number of bytes a value of the type occupies (0 = "zero-width").
+fn min_width(t: &Type) -> u64 {
+    fn fw(f: &Fields) -> u64 {
+        match f {
+            Fields::Named(l) => l.iter().map(|(_, t)| min_width(t)).fold(0u64, |a, b| a.saturating_add(b)),
+            Fields::Unnamed(l) => l.iter().map(min_width).fold(0u64, |a, b| a.saturating_add(b)),
+            Fields::None => 0,
+        }
+    }
+    match t {
+        Type::Unit => 0,
+        Type::Bool | Type::U8 | Type::I8 => 1,
+        Type::U16 | Type::I16 => 2,
+        Type::U32 | Type::I32 => 4,
+        Type::U64 | Type::I64 | Type::Amount | Type::Timestamp | Type::Duration => 8,
+        Type::U128 | Type::I128 | Type::ContractAddress => 16,
+        Type::AccountAddress => 32,
+        Type::Pair(a, b) => min_width(a).saturating_add(min_width(b)),
+        Type::List(s, _) | Type::Set(s, _) | Type::Map(s, _, _) | Type::String(s) | Type::ContractName(s)
+        | Type::ReceiveName(s) | Type::ByteList(s) => sl_num(s) / 8,
+        Type::Array(n, t) => (*n as u64).saturating_mul(min_width(t)),
+        Type::Struct(f) => fw(f),
+        Type::Enum(_) | Type::TaggedEnum(_) => 1,
+        Type::ULeb128(_) | Type::ILeb128(_) => 1,
+        Type::ByteArray(n) => *n as u64,
+    }
+}
+
+fn gen_fields(g: &mut Gen, depth: u32) -> Fields {
+    match g.r.below(5) {
+        0 => Fields::None,
+        1 | 2 => {
+            let n = g.r.below(4) as usize;
+            let names = distinct_names(g, n);
+            Fields::Named(names.into_iter().map(|nm| { let t = gen_type(g, depth); (nm, t) }).collect())
+        }
+        _ => { let n = g.r.below(4) as usize; Fields::Unnamed((0..n).map(|_| gen_type(g, depth)).collect()) }
+    }
+}
+
+fn gen_constraint(r: &mut Rng) -> u32 {
+    match r.below(10) { 0 => 0, 1 => 1, 2 => 2, 3 => 5, 4 => 10, 5 => 19, 6 => 37, 7 => u32::MAX, _ => r.range(1, 12) as u32 }
+}
+
+fn gen_leaf(g: &mut Gen) -> Type {
+    let r = &mut g.r;
+    match r.below(27) {
+        0 => Type::Unit, 1 => Type::Bool, 2 => Type::U8, 3 => Type::U16, 4 => Type::U32, 5 => Type::U64, 6 => Type::U128,
+        7 => Type::I8, 8 => Type::I16, 9 => Type::I32, 10 => Type::I64, 11 => Type::I128, 12 => Type::Amount,
+        13 => Type::AccountAddress, 14 => Type::ContractAddress, 15 => Type::Timestamp, 16 => Type::Duration,
+        17 => Type::String(*r.pick(&SIZES)), 18 => Type::ContractName(*r.pick(&SIZES)), 19 => Type::ReceiveName(*r.pick(&SIZES)),
+        20 | 21 => Type::ULeb128(gen_constraint(r)), 22 | 23 => Type::ILeb128(gen_constraint(r)),
+        24 => Type::ByteList(*r.pick(&SIZES)),
+        _ => Type::ByteArray(match r.below(6) { 0 => 0, 1 => 1, 2 => 32, 3 => 64, _ => r.below(9) as u32 }),
+    }
+}
+
+/// `depth` = remaining nesting budget; the result nests at most `depth` constructors deep.
+fn gen_type(g: &mut Gen, depth: u32) -> Type {
+    if depth <= 1 || g.r.chance(2, 7) { return gen_leaf(g); }
+    let d = depth - 1;
+    let pick_size = |g: &mut Gen, elem_zero: bool| -> SizeLength {
+        if g.hostile && elem_zero { *g.r.pick(&[SizeLength::U8, SizeLength::U16]) } else { *g.r.pick(&SIZES) }
+    };
+    match g.r.below(12) {
+        0 => Type::Pair(Box::new(gen_type(g, d)), Box::new(gen_type(g, d))),
+        1 | 2 => { let e = gen_type(g, d); let s = pick_size(g, min_width(&e) == 0); Type::List(s, Box::new(e)) }
+        3 => { let e = gen_type(g, d); let s = pick_size(g, min_width(&e) == 0); Type::Set(s, Box::new(e)) }
+        4 => {
+            let k = gen_type(g, d); let v = gen_type(g, d);
+            let s = pick_size(g, min_width(&k) == 0 && min_width(&v) == 0);
+            Type::Map(s, Box::new(k), Box::new(v))
+        }
+        5 => {
+            let e = gen_type(g, d);
+            let n = match g.r.below(8) { 0 => 0, 1 => 1, 2 => 2, 3 => 3,
+                4 => if g.hostile && min_width(&e) > 0 { *g.r.pick(&[u32::MAX, 1 << 31, 65536, 100000]) } else { 4 },
+                _ => g.r.below(5) as u32 };
+            Type::Array(n, Box::new(e))
+        }
+        6 | 7 => Type::Struct(gen_fields(g, d)),
+        8 | 9 => {
+            let n = g.r.range(1, 4) as usize;
+            let names = distinct_names(g, n);
+            Type::Enum(names.into_iter().map(|nm| { let f = gen_fields(g, d); (nm, f) }).collect())
+        }
+        _ => {
+            let n = g.r.range(1, 4) as usize;
+            let names = distinct_names(g, n);
+            let mut m = BTreeMap::new();
+            for nm in names {
+                let tag = match g.r.below(4) { 0 => 0u8, 1 => 255, _ => g.r.below(256) as u8 };
+                let f = gen_fields(g, d);
+                m.insert(tag, (nm, f));
+            }
+            Type::TaggedEnum(m)
+        }
+    }
+}
+
+/// Chain of single-child constructors of exactly the given depth (used for the depth axis).
+fn gen_deep(g: &mut Gen, depth: u32) -> Type {
+    let mut t = gen_leaf(g);
+    for _ in 1..depth {
+        t = match g.r.below(7) {
+            0 => Type::Pair(Box::new(t), Box::new(Type::U8)),
+            1 => Type::List(SizeLength::U8, Box::new(t)),
+            2 => Type::Array(1, Box::new(t)),
+            3 => Type::Struct(Fields::Unnamed(vec![t])),
+            4 => Type::Struct(Fields::Named(vec![("f".into(), t)])),
+            5 => Type::Enum(vec![("None".into(), Fields::None), ("Some".into(), Fields::Unnamed(vec![t]))]),
+            _ => { let mut m = BTreeMap::new(); m.insert(7u8, ("V".to_string(), Fields::Unnamed(vec![t]))); Type::TaggedEnum(m) }
+        };
+    }
+    t
+}
+
+fn type_depth(t: &Type) -> u32 {
+    fn fd(f: &Fields) -> u32 {
+        match f {
+            Fields::Named(l) => l.iter().map(|(_, t)| type_depth(t)).max().unwrap_or(0),
+            Fields::Unnamed(l) => l.iter().map(type_depth).max().unwrap_or(0),
+            Fields::None => 0,
+        }
+    }
+    1 + match t {
+        Type::Pair(a, b) => type_depth(a).max(type_depth(b)),
+        Type::List(_, e) | Type::Set(_, e) | Type::Array(_, e) => type_depth(e),
+        Type::Map(_, k, v) => type_depth(k).max(type_depth(v)),
+        Type::Struct(f) => fd(f),
+        Type::Enum(vs) => vs.iter().map(|(_, f)| fd(f)).max().unwrap_or(0),
+        Type::TaggedEnum(vs) => vs.values().map(|(_, f)| fd(f)).max().unwrap_or(0),
+        _ => 0,
+    }
+}
+
+fn fields_desc(f: &Fields) -> Value {
+    match f {
+        Fields::Named(l) => json!({"k":"N","l": l.iter().map(|(n, t)| json!([n, type_desc(t)])).collect::<Vec<_>>()}),
+        Fields::Unnamed(l) => json!({"k":"U","l": l.iter().map(type_desc).collect::<Vec<_>>()}),
+        Fields::None => json!({"k":"0"}),
+    }
+}
+
+fn type_desc(t: &Type) -> Value {
+    let simple = |s: &str| json!({ "t": s });
+    match t {
+        Type::Unit => simple("Unit"), Type::Bool => simple("Bool"),
+        Type::U8 => simple("U8"), Type::U16 => simple("U16"), Type::U32 => simple("U32"), Type::U64 => simple("U64"), Type::U128 => simple("U128"),
+        Type::I8 => simple("I8"), Type::I16 => simple("I16"), Type::I32 => simple("I32"), Type::I64 => simple("I64"), Type::I128 => simple("I128"),
+        Type::Amount => simple("Amount"), Type::AccountAddress => simple("AccountAddress"), Type::ContractAddress => simple("ContractAddress"),
+        Type::Timestamp => simple("Timestamp"), Type::Duration => simple("Duration"),
+        Type::Pair(a, b) => json!({"t":"Pair","a":type_desc(a),"b":type_desc(b)}),
+        Type::List(s, e) => json!({"t":"List","s":sl_num(s),"e":type_desc(e)}),
+        Type::Set(s, e) => json!({"t":"Set","s":sl_num(s),"e":type_desc(e)}),
+        Type::Map(s, k, v) => json!({"t":"Map","s":sl_num(s),"a":type_desc(k),"b":type_desc(v)}),
+        Type::Array(n, e) => json!({"t":"Array","n":n,"e":type_desc(e)}),
+        Type::Struct(f) => json!({"t":"Struct","f":fields_desc(f)}),
+        Type::Enum(vs) => json!({"t":"Enum","v": vs.iter().map(|(n, f)| json!([n, fields_desc(f)])).collect::<Vec<_>>()}),
+        Type::String(s) => json!({"t":"String","s":sl_num(s)}),
+        Type::ContractName(s) => json!({"t":"ContractName","s":sl_num(s)}),
+        Type::ReceiveName(s) => json!({"t":"ReceiveName","s":sl_num(s)}),
+        Type::ULeb128(c) => json!({"t":"ULeb128","n":c}),
+        Type::ILeb128(c) => json!({"t":"ILeb128","n":c}),
+        Type::ByteList(s) => json!({"t":"ByteList","s":sl_num(s)}),
+        Type::ByteArray(n) => json!({"t":"ByteArray","n":n}),
+        Type::TaggedEnum(vs) => json!({"t":"TaggedEnum","v": vs.iter().map(|(tag, (n, f))| json!([tag, n, fields_desc(f)])).collect::<Vec<_>>()}),
+    }
+}
+
+fn top_kind(t: &Type) -> &'static str {
+    match t {
+        Type::Unit => "Unit", Type::Bool => "Bool", Type::U8 | Type::U16 | Type::U32 | Type::U64 => "UInt", Type::U128 => "U128",
+        Type::I8 | Type::I16 | Type::I32 | Type::I64 => "SInt", Type::I128 => "I128", Type::Amount => "Amount",
+        Type::AccountAddress => "AccountAddress", Type::ContractAddress => "ContractAddress", Type::Timestamp => "Timestamp",
+        Type::Duration => "Duration", Type::Pair(..) => "Pair", Type::List(..) => "List", Type::Set(..) => "Set", Type::Map(..) => "Map",
+        Type::Array(..) => "Array", Type::Struct(..) => "Struct", Type::Enum(..) => "Enum", Type::String(..) => "String",
+        Type::ContractName(..) => "ContractName", Type::ReceiveName(..) => "ReceiveName", Type::ULeb128(..) => "ULeb128",
+        Type::ILeb128(..) => "ILeb128", Type::ByteList(..) => "ByteList", Type::ByteArray(..) => "ByteArray", Type::TaggedEnum(..) => "TaggedEnum",
+    }
+}
+
+// ------------------------------------------------------------------------------------------ values
+fn dec_variant(r: &mut Rng, digits: String, allow_us: bool) -> String {
+    // spellings the parsers accept besides the canonical one
+    match r.below(8) {
+        0 => format!("+{}", digits),
+        1 => format!("00{}", digits),
+        2 => format!("+0{}", digits),
+        3 if allow_us && digits.len() > 1 => { let mut s = digits.clone(); s.insert(1, '_'); s.push('_'); s }
+        _ => digits,
+    }
+}
+
+fn big_pow2(k: u32) -> Vec<u8> { // little-endian bytes of 2^k
+    let mut v = vec![0u8; (k / 8 + 1) as usize];
+    v[(k / 8) as usize] = 1 << (k % 8);
+    v
+}
+fn le_to_dec(mut v: Vec<u8>) -> String { // decimal of a little-endian magnitude
+    let mut digits = Vec::new();
+    while v.iter().any(|&b| b != 0) {
+        let mut rem = 0u32;
+        for b in v.iter_mut().rev() { let cur = (rem << 8) | *b as u32; *b = (cur / 10) as u8; rem = cur % 10; }
+        digits.push((b'0' + rem as u8) as char);
+    }
+    if digits.is_empty() { "0".into() } else { digits.iter().rev().collect() }
+}
+fn le_sub1(mut v: Vec<u8>) -> Vec<u8> { for b in v.iter_mut() { if *b == 0 { *b = 255 } else { *b -= 1; break } } v }
+fn le_add1(mut v: Vec<u8>) -> Vec<u8> { for b in v.iter_mut() { if *b == 255 { *b = 0 } else { *b += 1; return v } } v.push(1); v }
+
+fn gen_uleb_text(r: &mut Rng, c: u32) -> String {
+    // values around the 7*c-bit boundary of the constraint
+    let bits = 7u64 * (c.min(40) as u64);
+    let mag = match r.below(8) {
+        0 => vec![0u8],
+        1 if bits > 0 => le_sub1(big_pow2(bits as u32)),              // largest that fits
+        2 => big_pow2(bits as u32),                                   // smallest that does not fit
+        3 if bits >= 7 => big_pow2(bits as u32 - 7),                  // needs exactly c bytes
+        4 if bits >= 7 => le_sub1(big_pow2(bits as u32 - 7)),         // needs c-1 bytes
+        5 => r.u64_edge().to_le_bytes().to_vec(),
+        _ => { let n = r.range(1, (bits / 8 + 2).min(40)) as usize; r.bytes(n) }
+    };
+    dec_variant(r, le_to_dec(mag), true)
+}
+fn gen_ileb_text(r: &mut Rng, c: u32) -> String {
+    let bits = 7u64 * (c.min(40) as u64);
+    let (neg, mag) = match r.below(10) {
+        0 => (false, vec![0u8]),
+        1 => (true, vec![0u8]),                                                   // "-0"
+        2 if bits > 0 => (false, le_sub1(big_pow2(bits as u32 - 1))),             // max that fits
+        3 if bits > 0 => (false, big_pow2(bits as u32 - 1)),                      // does not fit
+        4 if bits > 0 => (true, big_pow2(bits as u32 - 1)),                       // min that fits
+        5 if bits > 0 => (true, le_add1(big_pow2(bits as u32 - 1))),              // does not fit
+        6 => (r.chance(1, 2), vec![*r.pick(&[63u8, 64, 65, 127, 128, 129, 1, 2])]),
+        7 => (r.chance(1, 2), r.u64_edge().to_le_bytes().to_vec()),
+        _ => { let n = r.range(1, (bits / 8 + 2).min(40)) as usize; (r.chance(1, 2), r.bytes(n)) }
+    };
+    let d = le_to_dec(mag);
+    if neg { let mut s = String::from("-"); s.push_str(&match r.below(4) { 0 => format!("00{}", d), _ => d }); s } else { dec_variant(r, d, true) }
+}
+
+fn gen_u_edge(r: &mut Rng, bits: u32) -> u64 {
+    let max = if bits == 64 { u64::MAX } else { (1u64 << bits) - 1 };
+    match r.below(6) { 0 => 0, 1 => max, 2 => max - 1, 3 => 1, 4 => max / 2 + 1, _ => r.u64_edge() & max }
+}
+fn gen_i_edge(r: &mut Rng, bits: u32) -> i64 {
+    let min = if bits == 64 { i64::MIN } else { -(1i64 << (bits - 1)) };
+    let max = if bits == 64 { i64::MAX } else { (1i64 << (bits - 1)) - 1 };
+    match r.below(8) { 0 => 0, 1 => max, 2 => min, 3 => -1, 4 => 1, 5 => min + 1, _ => { let x = r.u64_edge() as i64; if bits == 64 { x } else { (x << (64 - bits)) >> (64 - bits) } } }
+}
+
+fn gen_string(r: &mut Rng) -> String {
+    match r.below(40) {
+        0 => "a".repeat(*r.pick(&[255usize, 256, 4095, 4096, 4097, 4100, 4160, 5000])),
+        1 => "é".repeat(*r.pick(&[128usize, 2049, 2100])),
+        _ => {
+            let n = r.below(7);
+            (0..n).map(|_| *r.pick(&['a', 'b', 'Z', '0', ' ', '"', '\\', '\n', '\u{0}', 'é', 'ß', '€', '한', '𝄞', '\u{7f}', '\u{80}', '\u{7ff}', '\u{800}', '\u{ffff}', '\u{10000}', '\u{10ffff}', '@'])).collect()
+        }
+    }
+}
+
+fn gen_ident(r: &mut Rng, max: usize) -> String {
+    let n = r.below(max as u64 + 1) as usize;
+    (0..n).map(|_| *r.pick(&['a', 'b', 'c', 'X', 'Y', '0', '9', '_', '-', '!', '~', '#'])).collect()
+}
+
+fn count_for(r: &mut Rng, s: &SizeLength, small_elems: bool) -> usize {
+    match r.below(30) {
+        0 if small_elems => match s { SizeLength::U8 => *r.pick(&[255usize, 256]), _ => *r.pick(&[256usize, 300]) },
+        _ => r.below(4) as usize,
+    }
+}
+
+fn gen_fields_value(g: &mut Gen, f: &Fields) -> Value {
+    match f {
+        Fields::Named(l) => {
+            let mut m = Map::new();
+            for (n, t) in l.iter() {
+                // with duplicate names the first value generated is kept only if the later type accepts it
+                if !m.contains_key(n) || g.r.chance(1, 2) { let v = gen_value(g, t); m.insert(n.clone(), v); }
+            }
+            Value::Object(m)
+        }
+        Fields::Unnamed(l) => Value::Array(l.iter().map(|t| gen_value(g, t)).collect()),
+        Fields::None => match g.r.below(4) { 0 => Value::Null, 1 => json!({}), 2 => json!(7), _ => json!([]) },
+    }
+}
+
+/// A JSON value the schema accepts (using the whole accepted grammar, not only the printed form).
+fn gen_value(g: &mut Gen, t: &Type) -> Value {
+    match t {
+        Type::Unit => match g.r.below(5) { 0 => Value::Null, 1 => json!([]), 2 => json!({}), 3 => json!("unit"), _ => json!(0) },
+        Type::Bool => Value::Bool(g.r.chance(1, 2)),
+        Type::U8 => json!(gen_u_edge(&mut g.r, 8)), Type::U16 => json!(gen_u_edge(&mut g.r, 16)),
+        Type::U32 => json!(gen_u_edge(&mut g.r, 32)), Type::U64 => json!(gen_u_edge(&mut g.r, 64)),
+        Type::I8 => json!(gen_i_edge(&mut g.r, 8)), Type::I16 => json!(gen_i_edge(&mut g.r, 16)),
+        Type::I32 => json!(gen_i_edge(&mut g.r, 32)), Type::I64 => json!(gen_i_edge(&mut g.r, 64)),
+        Type::U128 => {
+            let v: u128 = match g.r.below(6) { 0 => 0, 1 => u128::MAX, 2 => 1u128 << 64, 3 => (1u128 << 127) + 1, 4 => g.r.u64_edge() as u128,
+                _ => ((g.r.next() as u128) << 64) | g.r.next() as u128 };
+            Value::String(dec_variant(&mut g.r, v.to_string(), false))
+        }
+        Type::I128 => {
+            let v: i128 = match g.r.below(8) { 0 => 0, 1 => i128::MAX, 2 => i128::MIN, 3 => -1, 4 => i128::MIN + 1, 5 => -(g.r.u64_edge() as i128),
+                _ => (((g.r.next() as u128) << 64) | g.r.next() as u128) as i128 };
+            let s = if v < 0 { v.to_string() } else if g.r.chance(1, 8) { "-0".to_string() } else { dec_variant(&mut g.r, v.to_string(), false) };
+            Value::String(if v == 0 && g.r.chance(1, 3) { "-0".into() } else { s })
+        }
+        Type::Amount => { let v = g.r.u64_edge(); Value::String(dec_variant(&mut g.r, v.to_string(), false)) }
+        Type::AccountAddress => {
+            let mut b = [0u8; 32];
+            match g.r.below(4) { 0 => {}, 1 => b = [255u8; 32], _ => b.copy_from_slice(&g.r.bytes(32)) }
+            if g.r.chance(1, 6) { b[0] = 0; b[1] = 0; }
+            Value::String(AccountAddress(b).to_string())
+        }
+        Type::ContractAddress => {
+            let i = g.r.u64_edge(); let s = g.r.u64_edge();
+            match g.r.below(7) {
+                0 => json!({"index": i}),
+                1 => json!({"index": i, "zzz": 1}),
+                2 => json!({"index": i, "subindex": "7"}),
+                3 => json!({"index": i, "subindex": -1}),
+                4 => json!({"index": i, "subindex": 1.5}),
+                _ => json!({"index": i, "subindex": s}),
+            }
+        }
+        Type::Timestamp => {
+            let m = match g.r.below(6) { 0 => g.r.u64_edge(), 1 => g.r.below(4102444800000), 2 => 253402300799999, 3 => 253402300800000, 4 => u64::MAX, _ => g.r.below(1 << 44) };
+            match g.r.below(5) {
+                0 => Value::String(m.to_string()),
+                1 => Value::String(format!("+{}", m)),
+                2 if m < 253402300800000 => {
+                    // the same instant written with an offset and without fraction digits when possible
+                    let s = Timestamp::from_timestamp_millis(m - m % 1000).to_string();
+                    Value::String(s.replace("+00:00", "Z"))
+                }
+                _ => Value::String(Timestamp::from_timestamp_millis(m).to_string()),
+            }
+        }
+        Type::Duration => {
+            let parts: Vec<String> = (0..g.r.below(5)).map(|_| {
+                let unit = *g.r.pick(&["ms", "s", "m", "h", "d"]);
+                format!("{}{}", g.r.below(100000), unit)
+            }).collect();
+            Value::String(match g.r.below(4) { 0 => parts.join("  "), 1 => format!(" {} ", parts.join(" ")), _ => parts.join(" ") })
+        }
+        Type::Pair(a, b) => Value::Array(vec![gen_value(g, a), gen_value(g, b)]),
+        Type::List(s, e) | Type::Set(s, e) => {
+            let n = count_for(&mut g.r, s, min_width(e) <= 2 && type_depth(e) <= 2);
+            Value::Array((0..n).map(|_| gen_value(g, e)).collect())
+        }
+        Type::Map(s, k, v) => {
+            let n = count_for(&mut g.r, s, min_width(k) + min_width(v) <= 2 && type_depth(k) + type_depth(v) <= 3);
+            Value::Array((0..n).map(|_| Value::Array(vec![gen_value(g, k), gen_value(g, v)])).collect())
+        }
+        Type::Array(n, e) => {
+            // arrays declared longer than 64 elements get a (rejected) short value
+            let n = (*n).min(64) as usize;
+            Value::Array((0..n).map(|_| gen_value(g, e)).collect())
+        }
+        Type::Struct(f) => gen_fields_value(g, f),
+        Type::Enum(vs) => {
+            let (n, f) = &vs[g.r.below(vs.len() as u64) as usize];
+            let mut m = Map::new(); m.insert(n.clone(), gen_fields_value(g, f)); Value::Object(m)
+        }
+        Type::TaggedEnum(vs) => {
+            let idx = g.r.below(vs.len() as u64) as usize;
+            let (n, f) = vs.values().nth(idx).unwrap();
+            let mut m = Map::new(); m.insert(n.clone(), gen_fields_value(g, f)); Value::Object(m)
+        }
+        Type::String(_) => Value::String(gen_string(&mut g.r)),
+        Type::ContractName(_) => {
+            let name = match g.r.below(12) { 0 => "a".repeat(95), 1 => "a".repeat(96), 2 => "a.b".into(), 3 => "é".into(), 4 => "a b".into(), _ => gen_ident(&mut g.r, 8) };
+            json!({ "contract": name })
+        }
+        Type::ReceiveName(_) => {
+            let c = match g.r.below(12) { 0 => "a".repeat(50), 1 => "a.b".into(), 2 => "ß".into(), _ => gen_ident(&mut g.r, 6) };
+            let f = match g.r.below(12) { 0 => "b".repeat(49), 1 => "b".repeat(50), 2 => "x.y".into(), 3 => "x y".into(), _ => gen_ident(&mut g.r, 6) };
+            json!({ "contract": c, "func": f })
+        }
+        Type::ULeb128(c) => Value::String(gen_uleb_text(&mut g.r, *c)),
+        Type::ILeb128(c) => Value::String(gen_ileb_text(&mut g.r, *c)),
+        Type::ByteList(s) => {
+            let n = match g.r.below(25) { 0 => match s { SizeLength::U8 => *g.r.pick(&[255usize, 256]), _ => 300 }, _ => g.r.below(6) as usize };
+            Value::String(hex_case(&mut g.r, &g_bytes(n)))
+        }
+        Type::ByteArray(n) => { let n = (*n).min(200) as usize; let b = g.r.bytes(n); Value::String(hex_case(&mut g.r, &b)) }
+    }
+}
+fn g_bytes(n: usize) -> Vec<u8> { (0..n).map(|i| (i * 37 + 11) as u8).collect() }
+fn hex_case(r: &mut Rng, b: &[u8]) -> String {
+    let s = hex(b);
+    match r.below(4) { 0 => s.to_uppercase(), 1 => s.chars().enumerate().map(|(i, c)| if i % 3 == 0 { c.to_ascii_uppercase() } else { c }).collect(), _ => s }
+}
+
+// ------------------------------------------------------------------------------------------ near misses
+fn count_nodes(v: &Value) -> u64 {
+    1 + match v { Value::Array(a) => a.iter().map(count_nodes).sum(), Value::Object(m) => m.values().map(count_nodes).sum(), _ => 0 }
+}
+fn mutate_here(r: &mut Rng, v: &mut Value) -> &'static str {
+    match v {
+        Value::Null => { *v = json!(0); "null->0" }
+        Value::Bool(_) => { *v = match r.below(3) { 0 => json!(1), 1 => json!("true"), _ => Value::Null }; "bool->other" }
+        Value::Number(n) => {
+            let kind = r.below(9);
+            let nv = match kind {
+                0 => json!(1.5), 1 => json!(-1), 2 => json!(n.to_string()), 3 => json!(256), 4 => json!(65536), 5 => json!(4294967296u64),
+                6 => json!(-129), 7 => serde_json::from_str("18446744073709551616").unwrap(), _ => json!(n.as_i64().map(|x| x.wrapping_neg()).unwrap_or(-7)),
+            };
+            *v = nv; "number->near"
+        }
+        Value::String(s) => {
+            let kind = r.below(10);
+            match kind {
+                0 => { *v = json!(12); "string->number" }
+                1 => { s.push('g'); "string+g" }
+                2 => { s.pop(); "string-last" }
+                3 => { s.insert(0, '-'); "string+minus" }
+                4 => { s.insert(0, ' '); "string+space" }
+                5 => { *s = String::new(); "string->empty" }
+                6 => { s.insert(0, '+'); "string+plus" }
+                7 => { s.push('_'); "string+underscore" }
+                8 => { *s = s.to_uppercase(); "string->upper" }
+                _ => { s.push('0'); "string+0" }
+            }
+        }
+        Value::Array(a) => {
+            match r.below(5) {
+                0 => { a.pop(); "array-pop" }
+                1 => { let x = a.first().cloned().unwrap_or(json!(0)); a.push(x); "array-push" }
+                2 => { *v = json!({}); "array->object" }
+                3 => { a.reverse(); "array-reverse" }
+                _ => { a.insert(0, Value::Null); "array+null" }
+            }
+        }
+        Value::Object(m) => {
+            match r.below(6) {
+                0 => { if let Some(k) = m.keys().next().cloned() { m.remove(&k); } "object-key" }
+                1 => { m.insert("extra".into(), json!(1)); "object+key" }
+                2 => { if let Some(k) = m.keys().next().cloned() { let x = m.remove(&k).unwrap(); m.insert(format!("{}x", k), x); } "object-rename" }
+                3 => { *v = json!([]); "object->array" }
+                4 => { if let Some(k) = m.keys().next().cloned() { let x = m.remove(&k).unwrap(); m.insert(k.to_uppercase(), x); } "object-upper" }
+                _ => { m.insert("subindex".into(), json!(3)); "object+subindex" }
+            }
+        }
+    }
+}
+fn mutate_at(r: &mut Rng, v: &mut Value, idx: &mut u64) -> Option<&'static str> {
+    if *idx == 0 { return Some(mutate_here(r, v)); }
+    *idx -= 1;
+    match v {
+        Value::Array(a) => { for x in a.iter_mut() { if let Some(k) = mutate_at(r, x, idx) { return Some(k); } } None }
+        Value::Object(m) => { for (_, x) in m.iter_mut() { if let Some(k) = mutate_at(r, x, idx) { return Some(k); } } None }
+        _ => None,
+    }
+}
+
+// ------------------------------------------------------------------------------------------ leaf translation
+/// Rewrites the opaque leaf strings of `v` (as far as `v` has the shape `t` asks for) into the model's
+/// stub forms by running the implementation's own parser: "@<hex>" for account addresses, "@<millis>"
+/// for timestamps and durations.  A string the parser rejects is left as it is.
+/// Returns Err when a leaf parser panics (observation O4: overflowing duration text).
+fn export(t: &Type, v: &Value) -> Result<Value, String> {
+    fn ef(f: &Fields, v: &Value) -> Result<Value, String> {
+        match (f, v) {
+            (Fields::Named(l), Value::Object(m)) => {
+                let mut out = m.clone();
+                for (n, t) in l.iter() { if let Some(x) = m.get(n) { out.insert(n.clone(), export(t, x)?); } }
+                Ok(Value::Object(out))
+            }
+            (Fields::Unnamed(l), Value::Array(a)) if l.len() == a.len() => Ok(Value::Array(l.iter().zip(a.iter()).map(|(t, x)| export(t, x)).collect::<Result<_, _>>()?)),
+            _ => Ok(v.clone()),
+        }
+    }
+    Ok(match (t, v) {
+        (Type::AccountAddress, Value::String(s)) => match AccountAddress::from_str(s) { Ok(a) => Value::String(format!("@{}", hex(&a.0))), Err(_) => v.clone() },
+        (Type::Timestamp, Value::String(s)) => match guarded(|| Timestamp::from_str(s)) { Ok(Ok(t)) => Value::String(format!("@{}", t.timestamp_millis())), Ok(Err(_)) => v.clone(), Err(e) => return Err(e) },
+        (Type::Duration, Value::String(s)) => match guarded(|| Duration::from_str(s)) { Ok(Ok(d)) => Value::String(format!("@{}", d.millis())), Ok(Err(_)) => v.clone(), Err(e) => return Err(e) },
+        (Type::Pair(a, b), Value::Array(xs)) if xs.len() == 2 => Value::Array(vec![export(a, &xs[0])?, export(b, &xs[1])?]),
+        (Type::List(_, e), Value::Array(xs)) | (Type::Set(_, e), Value::Array(xs)) | (Type::Array(_, e), Value::Array(xs)) =>
+            Value::Array(xs.iter().map(|x| export(e, x)).collect::<Result<_, _>>()?),
+        (Type::Map(_, k, w), Value::Array(xs)) => Value::Array(xs.iter().map(|x| match x {
+            Value::Array(p) if p.len() == 2 => Ok(Value::Array(vec![export(k, &p[0])?, export(w, &p[1])?])),
+            _ => Ok(x.clone()) }).collect::<Result<_, String>>()?),
+        (Type::Struct(f), _) => ef(f, v)?,
+        (Type::Enum(vs), Value::Object(m)) if m.len() == 1 => {
+            let (n, x) = m.iter().next().unwrap();
+            match vs.iter().find(|(vn, _)| vn == n) { Some((_, f)) => { let mut o = Map::new(); o.insert(n.clone(), ef(f, x)?); Value::Object(o) } None => v.clone() }
+        }
+        (Type::TaggedEnum(vs), Value::Object(m)) if m.len() == 1 => {
+            let (n, x) = m.iter().next().unwrap();
+            match vs.values().find(|(vn, _)| vn == n) { Some((_, f)) => { let mut o = Map::new(); o.insert(n.clone(), ef(f, x)?); Value::Object(o) } None => v.clone() }
+        }
+        _ => v.clone(),
+    })
+}
+
+/// Whether a struct in the type repeats a field name (the converse direction is only claimed without).
+fn has_dup_names(t: &Type) -> bool {
+    fn fd(f: &Fields) -> bool {
+        match f {
+            Fields::Named(l) => { let s: BTreeSet<&String> = l.iter().map(|x| &x.0).collect(); s.len() != l.len() || l.iter().any(|(_, t)| has_dup_names(t)) }
+            Fields::Unnamed(l) => l.iter().any(has_dup_names),
+            Fields::None => false,
+        }
+    }
+    match t {
+        Type::Pair(a, b) | Type::Map(_, a, b) => has_dup_names(a) || has_dup_names(b),
+        Type::List(_, e) | Type::Set(_, e) | Type::Array(_, e) => has_dup_names(e),
+        Type::Struct(f) => fd(f),
+        Type::Enum(vs) => vs.iter().any(|(_, f)| fd(f)),
+        Type::TaggedEnum(vs) => vs.values().any(|(_, f)| fd(f)),
+        _ => false,
+    }
+}
+
+fn to_json_full(t: &Type, bytes: &[u8]) -> Result<Result<(Value, usize), String>, String> {
+    guarded(|| {
+        let mut c = Cursor::new(bytes);
+        match t.to_json(&mut c) { Ok(v) => Ok((v, c.offset)), Err(e) => Err(short(&e.display(false))) }
+    })
+}
+fn short(s: &str) -> String { s.chars().take(160).collect() }
+
+// ------------------------------------------------------------------------------------------ mode rt
+fn mode_rt(seed: u64, n: u64, depth: u32) {
+    let mut g = Gen { r: Rng::new(seed ^ 0x10), dup: false, hostile: false };
+    for i in 0..n {
+        g.dup = i % 23 == 22;
+        let t = match i % 10 { 0 => gen_deep(&mut g, depth), 1 => gen_leaf(&mut g), _ => { let d = g.r.range(1, depth as u64) as u32; gen_type(&mut g, d) } };
+        let mut j = gen_value(&mut g, &t);
+        let mut mutation = "none";
+        if i % 3 == 2 {
+            let mut idx = g.r.below(count_nodes(&j));
+            mutation = mutate_at(&mut g.r, &mut j, &mut idx).unwrap_or("none");
+        }
+        let mut line = json!({"k":"rt","ty":type_desc(&t),"kind":top_kind(&t),"depth":type_depth(&t),"mut":mutation,"dup":has_dup_names(&t)});
+        let jx = match export(&t, &j) { Ok(x) => x, Err(e) => { line["skip"] = json!(format!("leaf parser panicked (O4): {}", short(&e))); line["raw"] = j.clone(); println!("{}", line); continue; } };
+        line["j"] = jx;
+        if j.to_string().len() < 300 { line["raw"] = j.clone(); }
+        match guarded(|| t.serial_value(&j)) {
+            Err(p) => { line["bytes"] = json!("PANIC"); line["panic"] = json!(short(&p)); }
+            Ok(Err(e)) => { line["bytes"] = json!("ERR"); line["err"] = json!(short(&e.display(false))); }
+            Ok(Ok(bs)) => {
+                line["bytes"] = json!(hex(&bs));
+                match to_json_full(&t, &bs) {
+                    Err(p) => { line["out"] = json!("PANIC"); line["panic"] = json!(short(&p)); }
+                    Ok(Err(e)) => { line["out"] = json!("ERR"); line["err"] = json!(e); }
+                    Ok(Ok((v, used))) => {
+                        line["rest"] = json!(bs.len() - used);
+                        match export(&t, &v) { Ok(x) => line["out"] = json!({ "v": x }), Err(e) => { line["out"] = json!("LEAFPANIC"); line["panic"] = json!(short(&e)); } }
+                        // direct oracle on the implementation alone: the printed JSON is accepted, denotes the same
+                        // bytes and prints as itself (second round trip is the identity)
+                        let second = guarded(|| t.serial_value(&v));
+                        let idem = match second {
+                            Ok(Ok(bs2)) => {
+                                let same_bytes = bs2 == bs;
+                                let again = to_json_full(&t, &bs2);
+                                let same_json = matches!(&again, Ok(Ok((v2, u2))) if *v2 == v && *u2 == bs2.len());
+                                json!({"accepted": true, "same_bytes": same_bytes, "same_json": same_json})
+                            }
+                            Ok(Err(e)) => json!({"accepted": false, "err": short(&e.display(false))}),
+                            Err(p) => json!({"accepted": false, "panic": short(&p)}),
+                        };
+                        line["idem"] = idem;
+                    }
+                }
+            }
+        }
+        println!("{}", line);
+    }
+}
+
+// ------------------------------------------------------------------------------------------ mode bytes
+fn mode_bytes(seed: u64, n: u64, depth: u32) {
+    let mut g = Gen { r: Rng::new(seed ^ 0x20), dup: false, hostile: true };
+    for i in 0..n {
+        let t = match i % 10 { 0 => gen_deep(&mut g, depth), 1 | 2 => gen_leaf(&mut g), _ => { let d = g.r.range(1, depth as u64) as u32; gen_type(&mut g, d) } };
+        // start from a valid encoding when one can be produced
+        let valid = { let j = gen_value(&mut g, &t); guarded(|| t.serial_value(&j)).ok().and_then(|x| x.ok()) };
+        let (src, bytes): (&str, Vec<u8>) = match (g.r.below(10), valid) {
+            (0, _) | (_, None) => { let k = g.r.below(40) as usize; ("random", g.r.bytes(k)) }
+            (1, Some(mut b)) => { let k = g.r.below(6) as usize; b.extend(g.r.bytes(k)); ("valid+tail", b) }
+            (2, Some(mut b)) => { let k = g.r.below(b.len() as u64 + 1) as usize; b.truncate(k); ("truncated", b) }
+            (3, Some(mut b)) | (4, Some(mut b)) => {
+                if !b.is_empty() { let p = g.r.below(b.len() as u64) as usize; b[p] = match g.r.below(4) { 0 => 255, 1 => 0, 2 => b[p].wrapping_add(1), _ => g.r.next() as u8 }; }
+                ("byte-changed", b)
+            }
+            (5, Some(mut b)) => {
+                // hostile length: overwrite the first bytes with 0xff (length prefixes sit in front)
+                let k = (g.r.range(1, 8) as usize).min(b.len());
+                for x in b.iter_mut().take(k) { *x = 255; }
+                ("hostile-prefix", b)
+            }
+            (6, Some(mut b)) => { if !b.is_empty() { let p = g.r.below(b.len() as u64) as usize; let k = g.r.range(1, 8) as usize; for x in b.iter_mut().skip(p).take(k) { *x = 255; } } ("hostile-inner", b) }
+            (_, Some(b)) => ("valid", b),
+        };
+        let mut line = json!({"k":"by","ty":type_desc(&t),"kind":top_kind(&t),"depth":type_depth(&t),"src":src,"bytes":hex(&bytes),"dup":has_dup_names(&t)});
+        match to_json_full(&t, &bytes) {
+            Err(p) => { line["out"] = json!("PANIC"); line["panic"] = json!(short(&p)); }
+            Ok(Err(e)) => { line["out"] = json!("ERR"); line["err"] = json!(e); }
+            Ok(Ok((v, used))) => {
+                line["rest"] = json!(bytes.len() - used);
+                match export(&t, &v) { Ok(x) => line["out"] = json!({ "v": x }), Err(e) => { line["out"] = json!("LEAFPANIC"); line["panic"] = json!(short(&e)); } }
+                // converse oracle: what to_json prints is accepted by serial_value and prints as itself
+                let conv = match guarded(|| t.serial_value(&v)) {
+                    Ok(Ok(bs2)) => {
+                        let again = to_json_full(&t, &bs2);
+                        json!({"accepted": true, "same_json": matches!(&again, Ok(Ok((v2, u2))) if *v2 == v && *u2 == bs2.len()),
+                               "same_bytes": bs2[..] == bytes[..used]})
+                    }
+                    Ok(Err(e)) => json!({"accepted": false, "err": short(&e.display(false))}),
+                    Err(p) => json!({"accepted": false, "panic": short(&p)}),
+                };
+                line["conv"] = conv;
+            }
+        }
+        println!("{}", line);
+    }
+}
+
+// ------------------------------------------------------------------------------------------ mode schema
+fn opt_desc(t: &Option<Type>) -> Value { match t { Some(t) => type_desc(t), None => Value::Null } }
+fn f1_desc(f: &FunctionV1) -> Value {
+    match f {
+        FunctionV1::Parameter(p) => json!({"k":"P","p":type_desc(p)}),
+        FunctionV1::ReturnValue(r) => json!({"k":"R","r":type_desc(r)}),
+        FunctionV1::Both { parameter, return_value } => json!({"k":"B","p":type_desc(parameter),"r":type_desc(return_value)}),
+    }
+}
+fn f2_desc(f: &FunctionV2) -> Value { json!({"p":opt_desc(&f.parameter),"r":opt_desc(&f.return_value),"e":opt_desc(&f.error)}) }
+
+fn gen_opt_type(g: &mut Gen, depth: u32) -> Option<Type> { if g.r.chance(1, 3) { None } else { Some(gen_type(g, depth)) } }
+fn gen_f1(g: &mut Gen, d: u32) -> FunctionV1 {
+    match g.r.below(3) { 0 => FunctionV1::Parameter(gen_type(g, d)), 1 => FunctionV1::ReturnValue(gen_type(g, d)),
+        _ => FunctionV1::Both { parameter: gen_type(g, d), return_value: gen_type(g, d) } }
+}
+fn gen_f2(g: &mut Gen, d: u32) -> FunctionV2 { FunctionV2 { parameter: gen_opt_type(g, d), return_value: gen_opt_type(g, d), error: gen_opt_type(g, d) } }
+fn gen_map<T>(g: &mut Gen, mut f: impl FnMut(&mut Gen) -> T) -> BTreeMap<String, T> {
+    let n = g.r.below(4) as usize;
+    let names = distinct_names(g, n);
+    let mut m = BTreeMap::new();
+    for nm in names { let x = f(g); m.insert(nm, x); }
+    m
+}
+fn map_desc<T>(m: &BTreeMap<String, T>, f: impl Fn(&T) -> Value) -> Value { Value::Array(m.iter().map(|(k, v)| json!([k, f(v)])).collect()) }
+
+fn module_desc(m: &VersionedModuleSchema) -> Value {
+    match m {
+        VersionedModuleSchema::V0(m) => json!({"v":0,"c":map_desc(&m.contracts, |c| json!({"state":opt_desc(&c.state),"init":opt_desc(&c.init),"receive":map_desc(&c.receive, type_desc)}))}),
+        VersionedModuleSchema::V1(m) => json!({"v":1,"c":map_desc(&m.contracts, |c| json!({"init":c.init.as_ref().map(f1_desc),"receive":map_desc(&c.receive, f1_desc)}))}),
+        VersionedModuleSchema::V2(m) => json!({"v":2,"c":map_desc(&m.contracts, |c| json!({"init":c.init.as_ref().map(f2_desc),"receive":map_desc(&c.receive, f2_desc)}))}),
+        VersionedModuleSchema::V3(m) => json!({"v":3,"c":map_desc(&m.contracts, |c| json!({"init":c.init.as_ref().map(f2_desc),"receive":map_desc(&c.receive, f2_desc),"event":opt_desc(&c.event)}))}),
+    }
+}
+fn gen_module(g: &mut Gen, version: u8, d: u32) -> VersionedModuleSchema {
+    match version {
+        0 => VersionedModuleSchema::V0(ModuleV0 { contracts: gen_map(g, |g| ContractV0 { state: gen_opt_type(g, d), init: gen_opt_type(g, d), receive: gen_map(g, |g| gen_type(g, d)) }) }),
+        1 => VersionedModuleSchema::V1(ModuleV1 { contracts: gen_map(g, |g| ContractV1 { init: if g.r.chance(1, 3) { None } else { Some(gen_f1(g, d)) }, receive: gen_map(g, |g| gen_f1(g, d)) }) }),
+        2 => VersionedModuleSchema::V2(ModuleV2 { contracts: gen_map(g, |g| ContractV2 { init: if g.r.chance(1, 3) { None } else { Some(gen_f2(g, d)) }, receive: gen_map(g, |g| gen_f2(g, d)) }) }),
+        _ => VersionedModuleSchema::V3(ModuleV3 { contracts: gen_map(g, |g| ContractV3 { init: if g.r.chance(1, 3) { None } else { Some(gen_f2(g, d)) }, receive: gen_map(g, |g| gen_f2(g, d)), event: gen_opt_type(g, d) }) }),
+    }
+}
+fn module_eq(a: &VersionedModuleSchema, b: &VersionedModuleSchema) -> bool {
+    match (a, b) {
+        (VersionedModuleSchema::V0(x), VersionedModuleSchema::V0(y)) => x == y,
+        (VersionedModuleSchema::V1(x), VersionedModuleSchema::V1(y)) => x == y,
+        (VersionedModuleSchema::V2(x), VersionedModuleSchema::V2(y)) => x == y,
+        (VersionedModuleSchema::V3(x), VersionedModuleSchema::V3(y)) => x == y,
+        _ => false,
+    }
+}
+fn unversioned_bytes(m: &VersionedModuleSchema) -> Vec<u8> {
+    match m { VersionedModuleSchema::V0(x) => to_bytes(x), VersionedModuleSchema::V1(x) => to_bytes(x), VersionedModuleSchema::V2(x) => to_bytes(x), VersionedModuleSchema::V3(x) => to_bytes(x) }
+}
+fn version_of(m: &VersionedModuleSchema) -> u8 { match m { VersionedModuleSchema::V0(_) => 0, VersionedModuleSchema::V1(_) => 1, VersionedModuleSchema::V2(_) => 2, VersionedModuleSchema::V3(_) => 3 } }
+
+fn rt_codec<T: Serial + Deserial + PartialEq>(x: &T) -> (Vec<u8>, bool) {
+    let b = to_bytes(x);
+    let ok = matches!(guarded(|| { let mut c = Cursor::new(&b[..]); let r = T::deserial(&mut c); (r, c.offset) }), Ok((Ok(y), used)) if y == *x && used == b.len());
+    (b, ok)
+}
+
+fn module_checks(m: &VersionedModuleSchema, line: &mut Value) {
+    let vb = to_bytes(m);
+    let ub = unversioned_bytes(m);
+    let ver = version_of(m);
+    line["bytes"] = json!(hex(&vb));
+    line["ubytes"] = json!(hex(&ub));
+    // with version prefix: from_bytes, new(.., None), new(.., Some(other)) all read the prefix
+    let a = guarded(|| from_bytes::<VersionedModuleSchema>(&vb));
+    line["rt_versioned"] = json!(matches!(&a, Ok(Ok(x)) if module_eq(x, m)));
+    let b = guarded(|| VersionedModuleSchema::new(&vb, &None));
+    line["rt_new_none"] = json!(matches!(&b, Ok(Ok(x)) if module_eq(x, m)));
+    let c = guarded(|| VersionedModuleSchema::new(&vb, &Some((ver + 1) % 4)));
+    line["rt_new_other"] = json!(matches!(&c, Ok(Ok(x)) if module_eq(x, m)));
+    // without prefix: needs the version; the prefix test must not misfire (0xffff would be a contract count >= 65535)
+    let d = guarded(|| VersionedModuleSchema::new(&ub, &Some(ver)));
+    line["rt_unversioned"] = json!(matches!(&d, Ok(Ok(x)) if module_eq(x, m)));
+    let e = guarded(|| VersionedModuleSchema::new(&ub, &None));
+    line["unversioned_needs_version"] = json!(matches!(&e, Ok(Err(_))));
+    // base64 (standard alphabet, no padding)
+    let s = general_purpose::STANDARD_NO_PAD.encode(&vb);
+    let f = guarded(|| VersionedModuleSchema::from_base64_str(&s));
+    line["rt_base64"] = json!(matches!(&f, Ok(Ok(x)) if module_eq(x, m)));
+    // re-encoding what was decoded gives the same bytes
+    line["reencode"] = json!(matches!(&a, Ok(Ok(x)) if to_bytes(x) == vb));
+}
+
+fn mode_schema(seed: u64, n: u64, depth: u32) {
+    let mut g = Gen { r: Rng::new(seed ^ 0x30), dup: false, hostile: false };
+    // testdata files
+    let dir = std::path::PathBuf::from(std::env::var("VERIF_REPO").unwrap_or_else(|_| "/repo".to_string())).join("smart-contracts/testdata/schemas");
+    let mut files: Vec<_> = std::fs::read_dir(&dir).map(|d| d.filter_map(|e| e.ok()).map(|e| e.path()).collect()).unwrap_or_default();
+    files.retain(|p| p.extension().map(|e| e == "bin").unwrap_or(false));
+    files.sort();
+    for p in files {
+        let name = p.file_name().unwrap().to_string_lossy().to_string();
+        let data = std::fs::read(&p).unwrap();
+        let hint: Option<u8> = if name.contains("-v0-") { Some(0) } else if name.contains("-v1-") { Some(1) } else if name.contains("-v2-") { Some(2) } else if name.contains("-v3-") { Some(3) } else { None };
+        let mut line = json!({"k":"file","name":name,"len":data.len()});
+        match guarded(|| VersionedModuleSchema::new(&data, &hint)) {
+            Ok(Ok(m)) => {
+                line["parsed"] = json!(true);
+                line["desc"] = module_desc(&m);
+                module_checks(&m, &mut line);
+                let expect = if name.contains("unversioned") { unversioned_bytes(&m) } else { to_bytes(&m) };
+                line["file_is_canonical"] = json!(expect == data);
+            }
+            Ok(Err(e)) => { line["parsed"] = json!(false); line["err"] = json!(format!("{:?}", e)); }
+            Err(p) => { line["parsed"] = json!(false); line["panic"] = json!(short(&p)); }
+        }
+        println!("{}", line);
+    }
+    for i in 0..n {
+        g.dup = i % 11 == 10;
+        match i % 4 {
+            0 => {
+                let t = if i % 8 == 0 { gen_deep(&mut g, depth) } else { let d = g.r.range(1, depth as u64) as u32; gen_type(&mut g, d) };
+                let (b, ok) = rt_codec(&t);
+                println!("{}", json!({"k":"type","ty":type_desc(&t),"depth":type_depth(&t),"bytes":hex(&b),"rt":ok}));
+            }
+            1 => {
+                let d = g.r.range(1, depth.min(5) as u64) as u32;
+                if g.r.chance(1, 2) { let f = gen_f1(&mut g, d); let (b, ok) = rt_codec(&f); println!("{}", json!({"k":"f1","f":f1_desc(&f),"bytes":hex(&b),"rt":ok})); }
+                else { let f = gen_f2(&mut g, d); let (b, ok) = rt_codec(&f); println!("{}", json!({"k":"f2","f":f2_desc(&f),"bytes":hex(&b),"rt":ok})); }
+            }
+            2 => {
+                let d = g.r.range(1, depth.min(4) as u64) as u32;
+                let m = gen_module(&mut g, (i / 4 % 4) as u8, d);
+                let mut line = json!({"k":"module","desc":module_desc(&m)});
+                module_checks(&m, &mut line);
+                println!("{}", line);
+            }
+            _ => {
+                // arbitrary bytes as a schema: must return a value or an error, and a value re-decodes from its own encoding
+                let t = { let d = g.r.range(1, 4) as u32; gen_type(&mut g, d) };
+                let mut b = to_bytes(&t);
+                match g.r.below(4) {
+                    0 => { let k = g.r.below(30) as usize; b = g.r.bytes(k); }
+                    1 => { if !b.is_empty() { let p = g.r.below(b.len() as u64) as usize; b[p] = g.r.next() as u8; } }
+                    2 => { let k = g.r.below(b.len() as u64 + 1) as usize; b.truncate(k); }
+                    _ => { if b.len() > 2 { let p = g.r.below(b.len() as u64 - 1) as usize; for x in b.iter_mut().skip(p).take(4) { *x = 255; } } }
+                }
+                let r = guarded(|| { let mut c = Cursor::new(&b[..]); let r = Type::deserial(&mut c); (r, c.offset) });
+                let mut line = json!({"k":"typebytes","bytes":hex(&b)});
+                match r {
+                    Err(p) => { line["out"] = json!("PANIC"); line["panic"] = json!(short(&p)); }
+                    Ok((Err(_), _)) => { line["out"] = json!("ERR"); }
+                    Ok((Ok(t2), used)) => {
+                        line["out"] = json!({"ty": type_desc(&t2), "used": used});
+                        let (b2, ok) = rt_codec(&t2);
+                        line["redecode"] = json!(ok);
+                        line["canonical"] = json!(b2[..] == b[..used]);
+                    }
+                }
+                println!("{}", line);
+            }
+        }
+    }
+}
+
+// ------------------------------------------------------------------------------------------ mode contract
+fn check_ct<T: SchemaType + Serial + Deserial + PartialEq + std::fmt::Debug>(name: &str, v: &T, j: Value) {
+    let t = T::get_type();
+    let expected = to_bytes(v);
+    let got = guarded(|| t.serial_value(&j));
+    let (bytes_ok, decoded_ok, got_hex) = match &got {
+        Ok(Ok(b)) => (b == &expected, matches!(guarded(|| from_bytes::<T>(b)), Ok(Ok(x)) if x == *v), hex(b)),
+        _ => (false, false, "ERR".to_string()),
+    };
+    let back = guarded(|| { let mut c = Cursor::new(&expected[..]); t.to_json(&mut c).ok() });
+    let back_ok = match back { Ok(Some(j2)) => matches!(guarded(|| t.serial_value(&j2)), Ok(Ok(b)) if b == expected), _ => false };
+    println!("{}", json!({"k":"ct","type":name,"j":if j.to_string().len() < 200 { j } else { json!("(long)") },"bytes":got_hex,"expected":hex(&expected),
+        "bytes_ok":bytes_ok,"decoded_ok":decoded_ok,"to_json_denotes_value":back_ok}));
+}
+
+fn mode_contract(seed: u64, n: u64) {
+    let mut r = Rng::new(seed ^ 0x40);
+    for i in 0..n {
+        match i % 24 {
+            0 => { let v = r.u64_edge() as u8; check_ct("u8", &v, json!(v)); }
+            1 => { let v = r.u64_edge() as u16; check_ct("u16", &v, json!(v)); }
+            2 => { let v = r.u32_edge(); check_ct("u32", &v, json!(v)); }
+            3 => { let v = r.u64_edge(); check_ct("u64", &v, json!(v)); }
+            4 => { let v = ((r.u64_edge() as u128) << 64) | r.u64_edge() as u128; check_ct("u128", &v, json!(v.to_string())); }
+            5 => { let v = gen_i_edge(&mut r, 8) as i8; check_ct("i8", &v, json!(v)); }
+            6 => { let v = gen_i_edge(&mut r, 16) as i16; check_ct("i16", &v, json!(v)); }
+            7 => { let v = gen_i_edge(&mut r, 32) as i32; check_ct("i32", &v, json!(v)); }
+            8 => { let v = gen_i_edge(&mut r, 64); check_ct("i64", &v, json!(v)); }
+            9 => { let v = (((r.u64_edge() as u128) << 64) | r.u64_edge() as u128) as i128; check_ct("i128", &v, json!(v.to_string())); }
+            10 => { let v = r.chance(1, 2); check_ct("bool", &v, json!(v)); }
+            11 => { let v = gen_string(&mut r); check_ct("String", &v, json!(v)); }
+            12 => { let v: Vec<u16> = (0..r.below(5)).map(|_| r.u64_edge() as u16).collect(); check_ct("Vec<u16>", &v, json!(v)); }
+            13 => {
+                let mut m: BTreeMap<u8, i32> = BTreeMap::new();
+                for _ in 0..r.below(5) { m.insert(r.next() as u8, r.u32_edge() as i32); }
+                let j = Value::Array(m.iter().map(|(k, v)| json!([k, v])).collect());
+                check_ct("BTreeMap<u8,i32>", &m, j);
+            }
+            14 => {
+                let v: Option<u64> = if r.chance(1, 3) { None } else { Some(r.u64_edge()) };
+                let j = match v { None => json!({"None": []}), Some(x) => json!({"Some": [x]}) };
+                check_ct("Option<u64>", &v, j);
+            }
+            15 => { let v = (r.u64_edge() as u8, (r.chance(1, 2), r.u64_edge())); check_ct("(u8,(bool,u64))", &v, json!([v.0, [v.1 .0, v.1 .1]])); }
+            16 => { let v = Amount::from_micro_ccd(r.u64_edge()); check_ct("Amount", &v, json!(v.micro_ccd().to_string())); }
+            17 => { let mut b = [0u8; 32]; b.copy_from_slice(&r.bytes(32)); let v = AccountAddress(b); check_ct("AccountAddress", &v, json!(v.to_string())); }
+            18 => { let v = ContractAddress::new(r.u64_edge(), r.u64_edge()); check_ct("ContractAddress", &v, json!({"index": v.index, "subindex": v.subindex})); }
+            19 => { let v = Timestamp::from_timestamp_millis(r.u64_edge()); check_ct("Timestamp", &v, json!(v.timestamp_millis().to_string())); }
+            20 => { let v = Duration::from_millis(r.u64_edge()); check_ct("Duration", &v, json!(format!("{}ms", v.millis()))); }
+            21 => {
+                let mut s: BTreeSet<u32> = BTreeSet::new();
+                for _ in 0..r.below(5) { s.insert(r.u32_edge()); }
+                check_ct("BTreeSet<u32>", &s, json!(s.iter().collect::<Vec<_>>()));
+            }
+            22 => {
+                let name = format!("init_{}", gen_ident(&mut r, 8));
+                if let Ok(v) = OwnedContractName::new(name.clone()) { check_ct("OwnedContractName", &v, json!({"contract": &name[5..]})); }
+            }
+            _ => {
+                let c = gen_ident(&mut r, 6); let f = gen_ident(&mut r, 6);
+                if let Ok(v) = OwnedReceiveName::new(format!("{}.{}", c, f)) { check_ct("OwnedReceiveName", &v, json!({"contract": c, "func": f})); }
+            }
+        }
+    }
+    // [u8; 4], Vec<Option<..>>
+    let v: [u8; 4] = [1, 2, 254, 255];
+    check_ct("[u8;4]", &v, json!([1, 2, 254, 255]));
+    let v: Vec<Option<i8>> = vec![None, Some(-128), Some(127)];
+    check_ct("Vec<Option<i8>>", &v, json!([{"None": []}, {"Some": [-128]}, {"Some": [127]}]));
+}
+
+// ------------------------------------------------------------------------------------------ mode leaf
+fn mode_leaf(seed: u64, n: u64) {
+    let mut r = Rng::new(seed ^ 0x50);
+    for i in 0..n {
+        match i % 3 {
+            0 => {
+                let mut b = [0u8; 32];
+                match r.below(5) { 0 => {}, 1 => b = [255; 32], 2 => { b[31] = 1; } _ => b.copy_from_slice(&r.bytes(32)) }
+                let s = AccountAddress(b).to_string();
+                let back = guarded(|| AccountAddress::from_str(&s));
+                let ok = matches!(&back, Ok(Ok(a)) if a.0 == b);
+                println!("{}", json!({"k":"leaf","type":"AccountAddress","v":hex(&b),"text":s,"ok":ok}));
+            }
+            1 => {
+                let m = match r.below(6) { 0 => r.u64_edge(), 1 => 253402300799999, 2 => 253402300800000, 3 => 8210266876799999, 4 => (1u64 << 63) + r.below(1000), _ => r.next() };
+                let s = guarded(|| Timestamp::from_timestamp_millis(m).to_string());
+                let ok = match &s { Ok(s) => matches!(guarded(|| Timestamp::from_str(s)), Ok(Ok(t)) if t.timestamp_millis() == m), Err(_) => false };
+                println!("{}", json!({"k":"leaf","type":"Timestamp","v":m.to_string(),"text":s.unwrap_or_else(|e| format!("PANIC {}", e)),"ok":ok}));
+            }
+            _ => {
+                let m = r.u64_edge();
+                let s = guarded(|| Duration::from_millis(m).to_string());
+                let ok = match &s { Ok(s) => matches!(guarded(|| Duration::from_str(s)), Ok(Ok(d)) if d.millis() == m), Err(_) => false };
+                println!("{}", json!({"k":"leaf","type":"Duration","v":m.to_string(),"text":s.unwrap_or_else(|e| format!("PANIC {}", e)),"ok":ok}));
+            }
+        }
+    }
+}
+
+// ------------------------------------------------------------------------------------------ mode obs
+fn mode_obs(max_log2: u64) {
+    // O1: nesting deeper than 32 (recursion without a depth limit)
+    for depth in [33u32, 64, 256, 2000] {
+        let mut g = Gen { r: Rng::new(depth as u64), dup: false, hostile: false };
+        let t = gen_deep(&mut g, depth);
+        let j = gen_value(&mut g, &t);
+        let t0 = std::time::Instant::now();
+        let r = guarded(|| t.serial_value(&j).ok().and_then(|b| { let mut c = Cursor::new(&b[..]); t.to_json(&mut c).ok().map(|v| v == j) }));
+        let sb = to_bytes(&t);
+        let r2 = guarded(|| from_bytes::<Type>(&sb).map(|x| x == t).unwrap_or(false));
+        println!("{}", json!({"k":"obs","id":"O1","depth":depth,"json_roundtrip":format!("{:?}", r),"schema_roundtrip":format!("{:?}", r2),"ms":t0.elapsed().as_millis() as u64}));
+    }
+    // O2: zero-width elements: work proportional to the declared count
+    for count in [65536u64, 1 << 17, 1 << 20, 1 << 24] {
+        if count > (1u64 << max_log2) { continue; }
+        let t = Type::List(SizeLength::U64, Box::new(Type::Unit));
+        let b = count.to_le_bytes();
+        let t0 = std::time::Instant::now();
+        let r = guarded(|| { let mut c = Cursor::new(&b[..]); t.to_json(&mut c).map(|v| v.as_array().map(|a| a.len())).ok() });
+        println!("{}", json!({"k":"obs","id":"O2","declared":count,"input_bytes":8,"result":format!("{:?}", r),"ms":t0.elapsed().as_millis() as u64}));
+    }
+}
+
 fn main() {
     quiet_panics();
-    // 1. long string followed by another field
-    let ty = Type::Pair(Box::new(Type::String(SizeLength::U16)), Box::new(Type::U8));
-    for n in [4096usize, 4097, 4160, 5000] {
-        let j = json!(["a".repeat(n), 7]);
-        let bs = ty.serial_value(&j).unwrap();
-        let r = guarded(|| ty.to_json(&mut Cursor::new(&bs[..])));
-        println!("len {} -> {:?}", n, r.map(|x| x.map(|v| v == j).map_err(|e| e.display(false).chars().take(150).collect::<String>())));
+    let a: Vec<String> = std::env::args().collect();
+    let num = |i: usize| -> u64 { a.get(i).map(|s| s.parse().unwrap()).unwrap_or(0) };
+    match a[1].as_str() {
+        "rt" => mode_rt(num(2), num(3), num(4) as u32),
+        "bytes" => mode_bytes(num(2), num(3), num(4) as u32),
+        "schema" => mode_schema(num(2), num(3), num(4) as u32),
+        "contract" => mode_contract(num(2), num(3)),
+        "leaf" => mode_leaf(num(2), num(3)),
+        "obs" => mode_obs(num(2)),
+        _ => panic!("mode"),
     }
-    // 2. ByteList hostile length
-    let ty = Type::ByteList(SizeLength::U32);
-    for len in [1u32 << 20, 1 << 24, 1 << 26] {
-        let bs = len.to_le_bytes();
-        let t = std::time::Instant::now();
-        let r = guarded(|| ty.to_json(&mut Cursor::new(&bs[..])).is_ok());
-        println!("bytelist declared {} -> {:?} in {:?}", len, r, t.elapsed());
-    }
-    // 3. names
-    let ty = Type::ContractName(SizeLength::U16);
-    let bs = ty.serial_value(&json!({"contract":"a.b"})).unwrap();
-    println!("contractname a.b -> {:?}", ty.to_json(&mut Cursor::new(&bs[..])).map_err(|e| e.display(false).chars().take(120).collect::<String>()));
-    let ty = Type::ReceiveName(SizeLength::U16);
-    let bs = ty.serial_value(&json!({"contract":"a.b","func":"c"})).unwrap();
-    println!("receivename a.b/c -> {:?}", ty.to_json(&mut Cursor::new(&bs[..])).map_err(|e| e.display(false).chars().take(120).collect::<String>()));
-    let n: serde_json::Value = serde_json::from_str("18446744073709551616").unwrap();
-    println!("{:?} {:?}", n, serde_json::from_str::<serde_json::Value>("1.0").unwrap().as_u64());
 }
